@@ -11,7 +11,7 @@ from sa.units import Unit
 from spec import formulas
 from spec.formulas import S, V
 
-from .common import eq_term, events, raises, returns, show, term_of
+from .common import private_helper, eq_term, events, raises, returns, show, term_of
 
 
 def expected():
@@ -81,10 +81,8 @@ def run(tier: str) -> Run:
     r6 = run.rule('R6', 'no argument is written on any path', 3)
 
     # R1
-    try:
-        fi = repo.func('conversion.beamline', '_drop_due_to_gravity')
-    except AnalysisError:
-        fi = None  # the helper is private: without it the drop is decided inside the angles (R2, R3)
+    # the helper is private: without it (or with another signature) the drop is decided inside the angles (R2, R3)
+    fi = private_helper(repo, 'conversion.beamline', '_drop_due_to_gravity', ['distance', 'wavelength', 'gravity'])
     if fi is None:
         r1.ok('drop distance inside the documented angles (no separate helper)', {'decided_by': 'R2, R3'})
     else:
